@@ -4,6 +4,9 @@ From C17 Require Import Generated Model Proofs Inflight.
 Import ListNotations.
 Open Scope Z_scope.
 
+(* use_fsync reaches _write_file: True at the KeyValueStorage.set call site AND passed on along every call path (regenerated) *)
+Definition write_synced : bool := kvs_use_fsync && use_fsync_on_every_write_path.
+
 (* T17.sound + complete — the verified checker decides crash safety of a (recorded or generated) trace of a
    sequence of sets: check_crash accepts it IFF at every crash point and for every allowed loss (name lost,
    durable content, any byte prefix of the volatile content, torn overwrite; chosen per file) every key of ks
@@ -32,15 +35,15 @@ Print Assumptions C17_isolation.
    variants every sequence of sets of any payloads on any keys (first-time keys and new directories included), for
    any buffer size, is crash safe: a completed set is durable, an interrupted one harms no other key. *)
 Theorem C17_completed_sets_durable : forall jr bs ks sets,
-  safe_from jr ks empty_state [] (sets_trace jr flush_before_fsync kvs_use_fsync sync_new_dirs bs empty_state sets).
-Proof. exact (safe_flag kvs_use_fsync flush_before_fsync sync_new_dirs eq_refl eq_refl eq_refl). Qed.
+  safe_from jr ks empty_state [] (sets_trace jr flush_before_fsync write_synced sync_new_dirs bs empty_state sets).
+Proof. exact (safe_flag write_synced flush_before_fsync sync_new_dirs eq_refl eq_refl eq_refl). Qed.
 Print Assumptions C17_completed_sets_durable.
 
 (* the same from any settled directory found at opening (every file synced and named durably) *)
 Theorem C17_completed_sets_durable_from : forall jr bs ks st e sets,
   clean st -> (forall k, exp_of e k = value_of st k) ->
-  safe_from jr ks st e (sets_trace jr flush_before_fsync kvs_use_fsync sync_new_dirs bs st sets).
-Proof. exact (safe_from_state_flag kvs_use_fsync flush_before_fsync sync_new_dirs eq_refl eq_refl eq_refl). Qed.
+  safe_from jr ks st e (sets_trace jr flush_before_fsync write_synced sync_new_dirs bs st sets).
+Proof. exact (safe_from_state_flag write_synced flush_before_fsync sync_new_dirs eq_refl eq_refl eq_refl). Qed.
 Print Assumptions C17_completed_sets_durable_from.
 
 (* journalled variant: holds without the directory syncs *)
